@@ -63,6 +63,7 @@ theorem inv_step {c : Cfg} {s : State} (h : Inv c s) (t k : Nat) (hen : enabled 
       · exact inv_waitSkip h
       · exact inv_waitBlock h hpc
     · exact inv_setFlag h
+    · exact inv_waitSkip h
   · rename_i j acc hpc; exact inv_afterEnq h hpc
   · rename_i f hpc; exact inv_waitPass h hpc
   · rename_i hpc; exact inv_stopJoin h hpc
